@@ -114,6 +114,12 @@ impl tower::Service<Request<Bytes>> for NodeService {
                     *resp.status_mut() = sc;
                 }
             }
+            // headers the caller chose freely ("x-..." in any case) are echoed back name by name, value reversed
+            for (k, v) in h.iter() {
+                if k.len() > 2 && k[..2].eq_ignore_ascii_case("x-") {
+                    resp.headers_mut().insert(k.clone(), v.chars().rev().collect());
+                }
+            }
             resp.headers_mut().insert("srv".into(), idx.to_string());
             resp.headers_mut().insert("id".into(), id);
             resp.headers_mut().insert("seen-from".into(), from);
@@ -329,6 +335,14 @@ async fn net_cmd(
             }
             if let Some(v) = a.get("timeout-hdr") {
                 req.headers_mut().insert("timeout".into(), String::from_utf8(unhex(v)).unwrap());
+            }
+            // xh=<hex name>:<hex value>[,<hex name>:<hex value>..]: arbitrary extra request headers
+            if let Some(list) = a.get("xh") {
+                for kv in list.split(',') {
+                    if let Some((k, v)) = kv.split_once(':') {
+                        req.headers_mut().insert(String::from_utf8(unhex(k)).unwrap(), String::from_utf8(unhex(v)).unwrap());
+                    }
+                }
             }
             let sent = digest(req.body());
             let fut = net.rpc(pids[&j], req);
